@@ -20,10 +20,11 @@ InSectorBlock(p) == p \in {"sector_eq", "term", "supplier_rule"}
 VARIABLES phase,      \* "construct" | "coded" | "fixed" | "final"
           aliases,    \* placeholders registered with the model: set of Vars
           embedded,   \* sequence of [place, var, placeholder: BOOLEAN] - what was written where
-          emitted     \* the same after the pipeline: what the final equations contain
-vars == << phase, aliases, embedded, emitted >>
+          emitted,    \* the same after the pipeline: what the final equations contain
+          asked       \* history: the requests as they were made (embedded is rewritten by FixAliases)
+vars == << phase, aliases, embedded, emitted, asked >>
 
-Init == phase = "construct" /\ aliases = {} /\ embedded = << >> /\ emitted = << >>
+Init == phase = "construct" /\ aliases = {} /\ embedded = << >> /\ emitted = << >> /\ asked = << >>
 
 (* GetVariableName(v) followed by embedding the returned name in place p *)
 RequestAndEmbed(v, p) ==
@@ -32,9 +33,10 @@ RequestAndEmbed(v, p) ==
     /\ LET ph == (phase = "construct")
        IN /\ aliases' = IF ph THEN aliases \cup {v} ELSE aliases
           /\ embedded' = Append(embedded, [place |-> p, var |-> v, placeholder |-> ph])
+          /\ asked' = Append(asked, [place |-> p, var |-> v, placeholder |-> ph])
     /\ UNCHANGED << phase, emitted >>
 
-FullCodes == phase = "construct" /\ phase' = "coded" /\ UNCHANGED << aliases, embedded, emitted >>
+FullCodes == phase = "construct" /\ phase' = "coded" /\ UNCHANGED << aliases, embedded, emitted, asked >>
 
 FixOne(e) == IF e.placeholder /\ e.var \in aliases /\ (InSectorBlock(e.place) \/ ~AsFound_GlobalNotFixed)
              THEN [e EXCEPT !.placeholder = FALSE] ELSE e
@@ -42,11 +44,11 @@ FixAliasesOp(es) == [i \in 1..Len(es) |-> FixOne(es[i])]
 
 FixAliases == /\ phase = "coded" /\ phase' = "fixed"
               /\ embedded' = FixAliasesOp(embedded)
-              /\ UNCHANGED << aliases, emitted >>
+              /\ UNCHANGED << aliases, emitted, asked >>
 
 FinalEquations == /\ phase = "fixed" /\ phase' = "final"
                   /\ emitted' = embedded
-                  /\ UNCHANGED << aliases, embedded >>
+                  /\ UNCHANGED << aliases, embedded, asked >>
 
 Next == \/ \E v \in Vars, p \in Places : RequestAndEmbed(v, p)
         \/ FullCodes \/ FixAliases \/ FinalEquations
